@@ -56,7 +56,7 @@ func (s envSpec) expected() string {
 func (s envSpec) yaml(dir string) string {
 	has := func(i int) bool { return s.mask&(1<<uint(i)) != 0 }
 	var b strings.Builder
-	b.WriteString("contexts:\n  cx:\n    env:\n      CTXONLY: from-context\n")
+	b.WriteString("contexts:\n  cx:\n    env:\n      CTXONLY: from-context\n      TASK_NAME: from-context\n")
 	if has(1) {
 		fmt.Fprintf(&b, "      VAL: %q\n", s.vals[1])
 	}
@@ -88,7 +88,7 @@ func envCase(col *Collector, s envSpec) {
 	defer os.RemoveAll(dir)
 	os.WriteFile(filepath.Join(dir, "tasks.yaml"), []byte(s.yaml(dir)), 0644)
 	// names that differ from the defined ones only in letter case are different names: they pass through untouched
-	env := []string{"PASSTHRU=kept as is", "val=lc1", "Val=lc2", "taskonly=lc3", "Ctxonly=lc4", "task_name=lc5", "fileonly=lc6"}
+	env := []string{"TASK_NAME=from-parent", "PASSTHRU=kept as is", "val=lc1", "Val=lc2", "taskonly=lc3", "Ctxonly=lc4", "task_name=lc5", "fileonly=lc6"}
 	if s.mask&1 != 0 {
 		env = append(env, "VAL="+s.vals[0])
 	}
